@@ -1,14 +1,18 @@
-"""C01 — an actor's message handler never runs concurrently with itself (E3 controlled schedules
+"""C02 — accepted messages are processed exactly once; no lost wake-up (E3 controlled schedules
 on the real doReceive / runTurn / finishOrReclaim / restartSubtree + dispatch state + mailbox)."""
-ID = "C01"
-LEAN_MODULES = ["GoaktVerif.Props.C01"]
+ID = "C02"
+LEAN_MODULES = ["GoaktVerif.Props.C02"]
 THEOREMS = [
-    "GoaktVerif.C01.exec_frame",
-    "GoaktVerif.C01.step_inv",
-    "GoaktVerif.C01.init_inv",
-    "GoaktVerif.C01.run_inv",
-    "GoaktVerif.C01.C01_holds",
-    "GoaktVerif.C01.old_restart_reset_breaks",
+    "GoaktVerif.C02.exec_acct",
+    "GoaktVerif.C02.C02_accounting",
+    "GoaktVerif.C02.C02_no_duplicate",
+    "GoaktVerif.C02.C02_live",
+    "GoaktVerif.C02.exec_K",
+    "GoaktVerif.C02.exec_J",
+    "GoaktVerif.C02.step_wake",
+    "GoaktVerif.C02.C02_no_lost_wakeup",
+    "GoaktVerif.C02.C02_quiescent",
+    "GoaktVerif.C02.C02_holds",
 ]
 TRUSTED = [
     "scope of the model: local actors with the default (unbounded MPSC) mailbox, user messages only (the system mailbox stays empty), senders / dispatcher workers / restart threads; grains, reentrancy callbacks, passivation and reinstatement threads are not in the model",
@@ -20,7 +24,7 @@ RULE = ("cases = (workers, budget, thread programs of Tell / take-and-run-turn /
         "completed deterministically; every case is executed on the real actor (doReceive, runTurn, finishOrReclaim, restartSubtree, dispatch state, mailbox) under the cooperative scheduler and replayed on the Lean model; "
         "non-trivial = the run produced a trace; distinct by (case, output)")
 MANIFEST = {
-    "level_text": "Kernel-checked inductive invariant over ALL schedules of any length, any number of senders, workers and restart threads with arbitrary programs and any turn budget: exactly one scheduling token exists iff the state is Scheduled, exactly one worker owns the turn iff it is Processing, hence at most one handler invocation is ever in progress (C01_holds). The model is tied to the real code step by step: tools/yieldinject instruments the current dispatch_state.go / unbounded_mailbox.go / restartSubtree, the harness drives a real actor through the generated schedules with the harness playing the dispatcher workers, and the Lean model must reproduce every label, result and the final digest; the per-function site sequences are checked as facts.",
+    "level_text": "Kernel-checked invariants over ALL schedules of any length, any number of senders, workers and restart threads: (accounting) the accepted messages are, as a multiset, exactly those handled, dropped while the actor was stopped, held by a worker, or still in the mailbox — so nothing is handled twice, invented or lost, and without a restart nothing is dropped; (no lost wake-up, as absence of stuck states) whenever the mailbox is non-empty there is a ready-queue entry for a free worker or a thread still responsible for the actor (token holder, turn owner, sender before its TrySchedule outcome, worker in its reclaim check); at quiescence a non-empty mailbox always has a ready-queue entry. Eventual scheduling under a fair scheduler is not stated temporally. The model is tied to the real code step by step: tools/yieldinject instruments the current dispatch_state.go / unbounded_mailbox.go / restartSubtree, the harness drives a real actor through the generated schedules with the harness playing the dispatcher workers, and the Lean model must reproduce every label, result and the final digest; the per-function site sequences are checked as facts.",
     "level_note": "Model scope: local actors, default mailbox (as its reservation-queue spec), user messages, restart thread; grains / reentrancy / passivation threads not modelled. Trusted: Lean kernel (+propext, Quot.sound), yieldinject + cooperative scheduler (sequentially consistent atomics), ready queue abstracted to an entry count. The old defect (restart storing Idle) is kept as a model-level witness theorem and a corpus schedule.",
     "technique": "Lean 4 inductive invariant over a small-step model of the CAS machine, replayed in lockstep against the instrumented real code under controlled schedules",
 }
@@ -48,7 +52,7 @@ SITES = {
 TIMEOUT = 900
 
 
-def one_case(rng, restart_p=0.3, maxsched=90):
+def one_case(rng, restart_p=0.15, maxsched=110):
     nw = rng.randint(1, 3)
     budget = rng.randint(1, 3)
     progs = []
